@@ -206,4 +206,12 @@ example : verdict true exNext = .cand 125 ∧ verdict true exFour = .cand 56 := 
 example : verdict false exNext = .cand (-150) := by decide +kernel
 example : pageDiff "http://e.com/a?page=2".toUTF8.toList "http://e.com/a?page=3".toUTF8.toList 13 = some 1 := by decide +kernel
 
+/-- the whole finder on that pager: links `1`, `3`, `4` and `Next` → page 3 seen from page 2 -/
+def exOne : Facts := ⟨true, true, true, true, "http://e.com/a?page=1", false, false, true, "/a?page=1", "1", "", "",
+  [("pagination", ""), ("", ""), ("", "")], "http://e.com/a?page=2", 13⟩
+def exThree : Facts := ⟨true, true, true, true, "http://e.com/a?page=3", false, false, true, "/a?page=3", "3", "", "",
+  [("pagination", ""), ("", ""), ("", "")], "http://e.com/a?page=2", 13⟩
+example : findOutlink true [exOne, exThree, exFour, exNext] = "http://e.com/a?page=3" ∧
+    findOutlink false [exOne, exThree, exFour, exNext] = "http://e.com/a?page=1" := by decide +kernel
+
 end Distill.LinkScoreProps
